@@ -22,6 +22,7 @@ func init() {
 
 func runC08(c *Ctx) {
 	c.U0()
+	theModel = c.model()
 	c.ruleR08a("R08a panic-inventory")
 	c.ruleR08b("R08b conversion-errors-returned")
 	c.ruleR08c("R08c readf-callback-contract")
@@ -69,7 +70,7 @@ func inputTainted(v ssa.Value, seen map[ssa.Value]bool) bool {
 	case *ssa.UnOp:
 		if x.Op == token.MUL {
 			if _, f, ok := fieldLoad(x); ok {
-				return f == "data" // the file content
+				return f == theModel.Data // the file content
 			}
 			if ia, ok := x.X.(*ssa.IndexAddr); ok {
 				return inputTainted(ia.X, seen)
@@ -223,6 +224,8 @@ func (c *Ctx) ruleR08a(rule string) {
 	}
 }
 
+var theModel = &textModel{Data: "data", Offset: "offset"}
+
 var conversionFns = map[string]bool{
 	"strconv.ParseInt": true, "strconv.ParseUint": true, "strconv.ParseFloat": true, "strconv.Atoi": true, "strconv.ParseBool": true,
 	"strconv.UnquoteChar": true, "strconv.Unquote": true, "time.ParseDuration": true, "time.Parse": true,
@@ -359,7 +362,7 @@ func (c *Ctx) ruleR08c(rule string) {
 	}
 	for _, fn := range cbs {
 		name := c.name(fn)
-		lf := lin.New(fn, immutablePath)
+		lf := lin.New(fn, func(string) bool { return true })
 		b := fn.Params[0]
 		lf.Axioms = append(lf.Axioms, lin.Ge(lf.LenOf(b), lin.Const(1), "Readf calls the callback only with a non-empty remainder (cur < File.len)"))
 		lf.Prepare()
